@@ -58,3 +58,178 @@ class HsFromChoi(E2Contract):
 
     def canary(self, W, cfg, inp, out):
         return [eq("canary", out[0], inp["hs"].T, "(false) to_hs_from_choi(Choi(hs)) == hs^T")]
+
+
+class HsFromChoiTruncating(E2Contract):
+    """the dict / sparsity implementations truncate: each entry is the exact value or 0 below eps"""
+    name = "to_hs_from_choi_with_(dict|sparsity)"
+    prop = "C02"
+    targets = (G + ":to_hs_from_choi_with_dict", G + ":to_hs_from_choi_with_sparsity", "quara.utils.matrix_util:truncate_hs",
+               "quara.utils.matrix_util:truncate_imaginary_part", "quara.utils.matrix_util:truncate_computational_fluctuation")
+
+    def configs(self, tier):
+        return ["1q", "1qt"] + (["2q"] if tier == "thorough" else [])
+
+    def inputs(self, W, cfg, mk):
+        n = DIMS[cfg] ** 2
+        c_sys = make_csys(W, cfg)
+        hs = mk.array("hs", (n, n))
+        eps = mk.real("eps")
+        mk.require(eps > 0)
+        mk.require(eps <= 1e-2)
+        return dict(c_sys=c_sys, hs=hs, choi=W.S.choi_from_hs(c_sys, hs), eps=eps)
+
+    def sample(self, cfg, names, rng):
+        vals = {n: rng.uniform(-1.5, 1.5) for n in names}
+        vals["eps"] = 10 ** rng.uniform(-13, -2)
+        return vals
+
+    def run(self, W, cfg, inp):
+        g = W.mod(G)
+        return [g.to_hs_from_choi_with_dict(inp["c_sys"], inp["choi"], inp["eps"]),
+                g.to_hs_from_choi_with_sparsity(inp["c_sys"], inp["choi"], inp["eps"])]
+
+    def post(self, W, cfg, inp, out):
+        return [true("inverse/dict", W.S.truncated(out[0], inp["hs"], inp["eps"]),
+                     "to_hs_from_choi_with_dict(Choi(hs)) == hs up to the truncation rule"),
+                true("inverse/sparsity", W.S.truncated(out[1], inp["hs"], inp["eps"]),
+                     "to_hs_from_choi_with_sparsity(Choi(hs)) == hs up to the truncation rule")]
+
+
+class ChoiVar(E2Contract):
+    name = "to_choi_from_var / to_var_from_choi"
+    prop = "C02"
+    targets = (G + ":to_choi_from_var", G + ":to_var_from_choi")
+
+    def configs(self, tier):
+        out = []
+        for s in ["1q", "1qt"] + (["2q"] if tier == "thorough" else []):
+            out += [(s, True), (s, False)]
+        return out
+
+    def inputs(self, W, cfg, mk):
+        n = DIMS[cfg[0]] ** 2
+        rows = n - 1 if cfg[1] else n
+        return dict(c_sys=make_csys(W, cfg[0]), var=mk.array("var", rows * n))
+
+    def run(self, W, cfg, inp):
+        g = W.mod(G)
+        choi = g.to_choi_from_var(inp["c_sys"], inp["var"], cfg[1])
+        return [choi, g.to_var_from_choi(inp["c_sys"], choi, cfg[1])]
+
+    def post(self, W, cfg, inp, out):
+        np = W.np
+        n = DIMS[cfg[0]] ** 2
+        body = inp["var"].reshape((n - 1, n)) if cfg[1] else inp["var"].reshape((n, n))
+        if cfg[1]:
+            first = np.zeros((1, n))
+            first[0, 0] = 1
+            hs = np.vstack([first, body])
+        else:
+            hs = body
+        return [eq("formula/to_choi_from_var", out[0], W.S.choi_from_hs(inp["c_sys"], hs),
+                   "to_choi_from_var(var) == Choi of the HS matrix the variables denote (implied first row e0)"),
+                true("inverse/to_var_from_choi", W.S.truncated(out[1], inp["var"], W.mod("quara.settings").Settings.get_atol()),
+                     "to_var_from_choi(to_choi_from_var(var)) == var (up to the truncation rule at the global atol)")]
+
+
+class HsFromKraus(E2Contract):
+    name = "to_hs_from_kraus_matrices"
+    prop = "C02"
+    targets = (G + ":to_hs_from_kraus_matrices", G + ":convert_hs")
+
+    def configs(self, tier):
+        return [("1q", 1), ("1q", 2)] + ([("1qt", 1), ("1q", 4)] if tier == "thorough" else [])
+
+    def inputs(self, W, cfg, mk):
+        d = DIMS[cfg[0]]
+        eps = mk.real("eps")
+        mk.require(eps > 0)
+        mk.require(eps <= 1e-2)
+        return dict(c_sys=make_csys(W, cfg[0]), kraus=[mk.carray(f"K{k}", (d, d)) for k in range(cfg[1])], eps=eps)
+
+    def sample(self, cfg, names, rng):
+        vals = {n: rng.uniform(-1.5, 1.5) for n in names}
+        vals["eps"] = 10 ** rng.uniform(-13, -2)
+        return vals
+
+    def run(self, W, cfg, inp):
+        return W.mod(G).to_hs_from_kraus_matrices(inp["c_sys"], inp["kraus"], inp["eps"])
+
+    def post(self, W, cfg, inp, out):
+        exact = W.S.hs_from_kraus(inp["c_sys"], inp["kraus"])
+        im = [x.imag for x in W.S.flat(exact)]
+        return [true("formula", W.S.truncated(out, exact, inp["eps"]),
+                     "HS_ab == <B_a, sum_k K B_b K^dagger> up to the truncation rule"),
+                eq("formula-real", im, [0 * x for x in im], "the defining formula is real in a Hermitian basis")]
+
+
+class ConvertHs(E2Contract):
+    name = "convert_hs / convert_to_comp_basis"
+    prop = "C02"
+    targets = (G + ":convert_hs", G + ":Gate.convert_basis", G + ":Gate.convert_to_comp_basis",
+               "quara.objects.matrix_basis:get_comp_basis")
+
+    def configs(self, tier):
+        return ["1q", "1qt"] + (["2q"] if tier == "thorough" else [])
+
+    def inputs(self, W, cfg, mk):
+        from ._cfg import obj_gate
+        return dict(gate=obj_gate(W, mk, make_csys(W, cfg)))
+
+    def run(self, W, cfg, inp):
+        g = inp["gate"]
+        c_sys = g.composite_system
+        row = g.convert_to_comp_basis("row_major")
+        col = g.convert_to_comp_basis("column_major")
+        back = W.mod(G).convert_hs(row, c_sys.comp_basis("row_major"), c_sys.basis())
+        return [row, col, back, g.convert_basis(c_sys.comp_basis("row_major"))]
+
+    def post(self, W, cfg, inp, out):
+        S = W.S
+        g = inp["gate"]
+        c_sys = g.composite_system
+        d = c_sys.dim
+        return [eq("formula/row_major", out[0], S.hs_in_basis(c_sys, g.hs, S.comp_basis(d, "row_major")),
+                   "convert_to_comp_basis('row_major')_ab == <E_a, Lambda(E_b)> for E = |i><j| in row-major order"),
+                eq("formula/column_major", out[1], S.hs_in_basis(c_sys, g.hs, S.comp_basis(d, "column_major")),
+                   "the same in column-major order"),
+                eq("inverse/comp->basis", out[2], g.hs, "convert back to the object's basis is the identity"),
+                eq("agree/convert_basis", out[3], out[0], "Gate.convert_basis(comp) == convert_to_comp_basis()")]
+
+    def canary(self, W, cfg, inp, out):
+        S = W.S
+        g = inp["gate"]
+        return [eq("canary", out[0], S.hs_in_basis(g.composite_system, g.hs, S.comp_basis(g.composite_system.dim, "column_major")),
+                   "(false) row-major result == column-major formula")]
+
+
+class ProcessMatrix(E2Contract):
+    """chi defined by its action: Lambda(rho) == sum_ab chi_ab E_a rho E_b^dagger  (E computational basis, row-major)"""
+    name = "to_process_matrix_from_hs"
+    prop = "C02"
+    targets = (G + ":to_process_matrix_from_hs", G + ":Gate.to_process_matrix")
+
+    def configs(self, tier):
+        return ["1q"] + (["1qt"] if tier == "thorough" else [])
+
+    def inputs(self, W, cfg, mk):
+        from ._cfg import obj_gate
+        d = DIMS[cfg]
+        return dict(gate=obj_gate(W, mk, make_csys(W, cfg)), rho=mk.hermitian("rho", d))
+
+    def run(self, W, cfg, inp):
+        return inp["gate"].to_process_matrix()
+
+    def post(self, W, cfg, inp, out):
+        S = W.S
+        g = inp["gate"]
+        c_sys = g.composite_system
+        d = c_sys.dim
+        E = S.comp_basis(d, "row_major")
+        acc = S.zeros_c((d, d))
+        for a in range(d * d):
+            for b in range(d * d):
+                acc = acc + out[a, b] * (E[a] @ inp["rho"] @ S.dagger(E[b]))
+        return [eq("defining-action", acc, S.apply_hs(c_sys, g.hs, inp["rho"]),
+                   "sum_ab chi_ab E_a rho E_b^dagger == Lambda(rho) for every Hermitian rho")]
